@@ -101,6 +101,20 @@ fn main() {
     println!("E1 -> {:?}", RawRequestMessageDecoder.decode(&mut enc).map(|m| m.map(|m| m.envelope)));
     let _ = LaneResponse::<i32>::Initialized;
 
+    // I. RequestMessageDecoder: a body that is rejected at its end (unterminated string) drops the
+    //    buffered bytes of the following frames and leaves the decoder inside the body
+    let mut enc = BytesMut::new();
+    RawRequestMessageEncoder
+        .encode(RequestMessage::<&str, &[u8]>::command(Uuid::nil(), RelativeAddress::new("/n", "l"), b"\"abc"), &mut enc)
+        .unwrap();
+    RawRequestMessageEncoder.encode(RequestMessage::<&str, &[u8]>::link(Uuid::nil(), RelativeAddress::new("/n", "l")), &mut enc).unwrap();
+    let total = enc.len();
+    let mut dec = RequestMessageDecoder::new(Value::make_recognizer());
+    let r1 = dec.decode(&mut enc).map(|m| m.map(|m| m.envelope)).map_err(|e| e.to_string());
+    let left = enc.len();
+    let r2 = dec.decode(&mut enc).map(|m| m.map(|m| m.envelope)).map_err(|e| e.to_string());
+    println!("I1 [Command(\"abc), Link] {} bytes -> first {:?} (buffer now {} bytes); then {:?}", total, r1, left, r2);
+
     // F. reserve(length from the wire): aborts the process (memory allocation of 1099511627792 bytes failed)
     let mut b = BytesMut::new();
     b.put_u64(1 << 40);
